@@ -67,6 +67,25 @@ def replay(hist, svc):
         for e in segs[k]:
             if e[0] == "cancel":
                 inject_cancel(event.assoc, e[1])
+            elif e[0] == "other":
+                # a whole operation with the same message id on a second association of the same process
+                seen = []
+
+                def other_handler(ev2):
+                    seen.append(bool(ev2.is_cancelled))
+                    if svc == "MOVE":
+                        yield (None, None)
+                    elif svc == "GET":
+                        yield 0
+                    else:
+                        yield 0x0000, None
+
+                rig2 = ScpRig([(1, uid, IMPL, False, True)], handlers=[(event_of, other_handler)])
+                for p in pdatas_for(mk(msg_id=k, sop_class=uid), 1, 1):
+                    rig2.assoc.dimse.receive_primitive(p)
+                cid2, msg2 = rig2.assoc.dimse.get_msg(block=False)
+                rig2.assoc._serve_request(msg2, cid2)
+                log.append({"e": "other", "v": k, "r": bool(seen and seen[0])})
             else:
                 r = bool(event.is_cancelled)
                 log.append({"e": "poll", "v": k, "r": r})
